@@ -155,6 +155,7 @@ PROPS = {
             {"name": "shut-bus", "quick": 40000, "thorough": 3000000, "thorough_time": 200},
             {"name": "shut-res", "quick": 40000, "thorough": 3000000, "thorough_time": 250},
             {"name": "shut-models", "quick": 30000, "thorough": 2000000, "thorough_time": 150},
+            {"name": "shut-groups", "quick": 20000, "thorough": 1000000, "thorough_time": 100, "extra": ["-sim.only=leak,pull-stuck,panic,internal-panic"]},
         ],
         "require_hits": ["cancel", "abandon", "bus.collect", "bus.listen.register", "bus.send.each"],
         "assumptions": ["a listener's shutdown goroutine is delayed only in lazy runs; the late-delivery oracle applies to eager runs"],
